@@ -28,6 +28,19 @@ Fixpoint graftc (t : ctree) (ky kn : pcode) : pcode :=
 Definition phi_reg (d : nat) : nat := (2 * d)%nat.
 Definition bound_reg (d : nat) : nat := S (2 * d).
 
+(* gen_assign, tuple target: values = [gen_expr(v) for v in values] (SSA values, registers
+   base, base+1, ...), then store_value(target, value) pairwise *)
+Fixpoint lower_list (k : lowcfg) (es : list pexpr) : option (list itree) :=
+  match es with
+  | [] => Some []
+  | e :: r => match lower k e, lower_list k r with
+              | Some t, Some ts => Some (t :: ts) | _, _ => None end
+  end.
+Fixpoint tup_sets (base : nat) (ts : list itree) (kn : pcode) : pcode :=
+  match ts with [] => kn | t :: r => KSet base t (tup_sets (S base) r kn) end.
+Fixpoint tup_gets (base : nat) (xs : list nat) (kn : pcode) : pcode :=
+  match xs with [] => kn | x :: r => KGet x base (tup_gets (S base) r kn) end.
+
 Fixpoint pcompile (k : lowcfg) (d : nat) (s : pstmt) (kn kb kc : pcode) : option pcode :=
   match s with
   | PSPass => Some kn
@@ -62,6 +75,12 @@ Fixpoint pcompile (k : lowcfg) (d : nat) (s : pstmt) (kn kb kc : pcode) : option
   | PSBreak => Some kb
   | PSContinue => Some kc
   | PSRet e => match lower k e with Some t => Some (KRet t) | None => None end
+  | PSTuple xs es =>
+      match lower_list k es with
+      | Some ts => if Nat.eqb (length xs) (length ts)      (* assert len(values) == len(targets) *)
+                   then Some (tup_sets (phi_reg d) ts (tup_gets (phi_reg d) xs kn)) else None
+      | None => None
+      end
   end.
 
 Definition wrap64 (z : Z) : Z := wrap_bits 64 true z.
